@@ -63,7 +63,7 @@ def run(ctx):
         do_case(ctx, {"var": ["a", lo, hi], "I": I})
     n_models = (60 if ctx.quick else 600) * (3 if ctx.search else 1)
     for _ in range(n_models):
-        a, o, t = gen_valid(ctx.rng, ctx.quick)
+        a, o, t = gen_valid(ctx.rng, ctx.quick, prefix_p=0.2)
         for _ in range(4):
             # values may lie outside a leaf's declared bounds: the interpretation wins (variable.evaluate's documented behaviour)
             I = gen_interp(ctx.rng, t, total=True, ranges=False, in_bounds=ctx.rng.random() < 0.6)
